@@ -40,17 +40,21 @@ Ex(label, assigns) == [label |-> label, assigns |-> assigns]
 
 XSchema(t) ==
     ("A" :> DAlias("nsb", Str13, "")) @@
-    ("K" :> DUnion("nsb", "", TRUE, <<Tag("red", TVoid), Tag("green", TVoid), Tag("size", I32b)>>)) @@
     ("L" :> DStruct("nsb", "", <<Fld("l1", I32b)>>, <<>>, FALSE)) @@
+    \* K has a member of user-defined type: its tag name is NOT an example label of K (only void tags are)
+    ("K" :> DUnion("nsb", "", TRUE, <<Tag("red", TVoid), Tag("green", TVoid), Tag("size", I32b), Tag("entry", TRef("L"))>>)) @@
+    ("AL" :> DAlias("nsb", TList(TRef("L"), Unset, Unset), "")) @@
     ("Probe" :> DStruct("nsa", "", <<Fld("f1", t)>>, <<>>, FALSE))
 XExamples(x) ==
     ("L" :> <<Ex("default", "l1" :> XLit(VInt(10))), Ex("other", "l1" :> XLit(VInt(7)))>>) @@
-    ("Probe" :> <<Ex("default", "f1" :> x)>>) @@ ("K" :> <<>>) @@ ("A" :> <<>>)
+    ("Probe" :> <<Ex("default", "f1" :> x)>>) @@ ("K" :> <<>>) @@ ("A" :> <<>>) @@ ("AL" :> <<>>)
 
 ETypes == << I32b, F64b, Str13, StrP, TBool, TTs("f1"), TBytes(Unset, Unset),
              TList(I32b, Unset, 2), TList(TList(Str13, Unset, Unset), Unset, Unset), TMap(I32b),
              TMap(TList(Str13, Unset, Unset)), TNull(I32b), TNull(TRef("L")), TRef("L"), TRef("K"), TRef("A"),
-             TList(TRef("L"), 1, Unset), TMap(TRef("K")), TNull(TList(TNull(I32b), Unset, Unset)) >>
+             TList(TRef("L"), 1, Unset), TMap(TRef("K")), TNull(TList(TNull(I32b), Unset, Unset)),
+             \* an alias of a list of structs; floats bounded on one side only
+             TRef("AL"), TFloat("Float64", Unset, 11), TFloat("Float64", 5, Unset) >>
 Int10 == XLit(VInt(10))
 StrOk == XLit(CStr(2, TRUE, 0))
 XExprs == { Int10, XLit(VInt(13)), XLit(VFloat(9)), XLit(VFloat(12)), StrOk, XLit(CStr(4, TRUE, 0)),
@@ -58,7 +62,7 @@ XExprs == { Int10, XLit(VInt(13)), XLit(VFloat(9)), XLit(VFloat(12)), StrOk, XLi
             XList(<<>>), XList(<<Int10>>), XList(<<Int10, Int10, Int10>>), XList(<<StrOk>>), XList(<<XList(<<StrOk>>)>>),
             XList(<<XNull>>), XList(<<Int10, StrOk>>),
             XMap("k1" :> Int10), XMap("k1" :> XList(<<StrOk>>)), XMap("k1" :> StrOk), XMap(("k1" :> Int10) @@ ("k2" :> StrOk)),
-            XRef("default"), XRef("other"), XRef("nolabel"), XRef("red"), XRef("size"),
+            XRef("default"), XRef("other"), XRef("nolabel"), XRef("red"), XRef("size"), XRef("entry"), XLit(VFloat(3)),
             XList(<<XRef("default")>>), XList(<<XRef("default"), XRef("nolabel")>>),
             XMap("k1" :> XRef("red")), XMap("k1" :> XRef("zz")) }
 
@@ -100,12 +104,19 @@ LTag(n) == [k |-> "ltag", n |-> n]
 LNull == [k |-> "lnull"]
 LTs(ok) == [k |-> "lts", ok |-> ok]
 LAbsent == [k |-> "absent"]
-ASchema == ("K" :> DUnion("nsb", "", TRUE, <<Tag("red", TVoid), Tag("green", TVoid), Tag("size", I32b)>>))
+ASchema == ("K" :> DUnion("nsb", "", TRUE, <<Tag("red", TVoid), Tag("green", TVoid), Tag("size", I32b)>>)) @@
+           ("L" :> DStruct("nsb", "", <<Fld("l1", I32b)>>, <<>>, FALSE)) @@
+           ("AV" :> DAlias("nsb", TVoid, ""))
 ADecls == << [t |-> StrU, d |-> LAbsent], [t |-> StrU, d |-> LStr(2, TRUE)], [t |-> TNull(StrU), d |-> LAbsent],
              [t |-> Str13, d |-> LAbsent], [t |-> StrP, d |-> LAbsent], [t |-> I32b, d |-> LAbsent], [t |-> I32b, d |-> LInt(10)],
              [t |-> TNull(I32b), d |-> LAbsent], [t |-> F64b, d |-> LAbsent], [t |-> TBool, d |-> LAbsent],
              [t |-> TBool, d |-> LBool(FALSE)], [t |-> TRef("K"), d |-> LAbsent], [t |-> TRef("K"), d |-> LTag("green")],
-             [t |-> TNull(TRef("K")), d |-> LAbsent], [t |-> TTs("f1"), d |-> LAbsent] >>
+             [t |-> TNull(TRef("K")), d |-> LAbsent], [t |-> TTs("f1"), d |-> LAbsent],
+             \* attribute types the documents do not speak about: containers, structs, a nullable alias of Void
+             [t |-> TList(StrU, Unset, Unset), d |-> LAbsent], [t |-> TNull(TMap(StrU)), d |-> LAbsent],
+             [t |-> TNull(TRef("L")), d |-> LAbsent], [t |-> TNull(TRef("AV")), d |-> LAbsent],
+             [t |-> F64b, d |-> LFloat(9)], [t |-> TFloat("Float64", Unset, 11), d |-> LAbsent],
+             [t |-> [k |-> "routeunion"], d |-> LAbsent] >>                \* `union Route` instead of `struct Route`
 AVals == { LAbsent, LNull, LInt(10), LInt(13), LFloat(9), LFloat(12), LStr(2, TRUE), LStr(4, TRUE), LStr(2, FALSE),
            LBool(TRUE), LTag("red"), LTag("size"), LTag("zz"), LTs(TRUE) }
 LitFits(sc, u, l) ==
@@ -122,12 +133,17 @@ LitFits(sc, u, l) ==
                           THEN "acc" ELSE "rej"
       [] OTHER -> "rej"
 AttrFits(sc, decl, l) ==
+    IF decl.t.k = "routeunion" THEN "rej" ELSE                   \* the schema is "a struct named Route"
     LET u == Unalias(sc, decl.t)
         nullable == u.k = "nullable"
         inner == IF nullable THEN Unalias(sc, u.e) ELSE u
-    IN  CASE l.k = "absent" -> IF nullable \/ decl.d.k # "absent" THEN "acc" ELSE "rej"     \* a required attribute must be given
-          [] l.k = "lnull"  -> IF nullable THEN "acc" ELSE "rej"
-          [] OTHER          -> LitFits(sc, inner, l)
+    IN  CASE l.k = "absent" -> IF nullable \/ decl.d.k # "absent" THEN "acc"
+                               ELSE IF inner.k \in {"list", "map"} THEN "unspec" ELSE "rej"  \* a required attribute must be given
+          [] l.k = "lnull"  -> IF ~nullable THEN "rej"
+                               ELSE IF inner.k \in {"list", "map", "void"} \/ (inner.k = "ref" /\ sc[inner.n].k = "struct")
+                                    THEN "unspec" ELSE "acc"
+          [] OTHER          -> IF inner.k \in {"list", "map", "void"} \/ (inner.k = "ref" /\ sc[inner.n].k = "struct")
+                               THEN "unspec" ELSE LitFits(sc, inner, l)
 
 \* ------------------------------------------------------------- documentation references
 \* the environment the reference is written in (namespace nsa, which imports nsb; nsc exists but is not imported):
@@ -211,6 +227,49 @@ AnnFits(site, ty, a1, a2) ==
     ELSE IF {"Dep", "Prev"} \subseteq as \/ a1 = a2 THEN "unspec"
     ELSE "acc"
 
+\* ------------------------------------------------------------- annotation definitions (lang_ref "Custom annotations")
+\* nsa: annotation_type Note { importance String = "low" }, annotation_type Pair { x Int32; y Int32 };
+\* nsb (imported): annotation_type NoteB { level Int32 = 1 };  nsc (not imported): annotation_type NoteC { z Int32 = 1 }
+\* `annotation X = <ref>(<args>)`
+DefRefs == {"Omitted", "Deprecated", "RedactedBlot", "Note", "Pair", "nsa.Note", "nsb.NoteB", "nsc.NoteC", "nsz.Note", "Zz", "Sx"}
+DefArgs == {"none", "pos_s", "pos_i", "pos_ii", "pos_ss", "kw_importance", "kw_xy", "kw_x", "kw_zz", "mixed", "pos_iii"}
+\* parameters of the custom annotation types: <<name, kind ("s"/"i"), has default>>
+ParamsOf(r) == CASE r = "Note" -> << <<"importance", "s", TRUE>> >> [] r = "Pair" -> << <<"x", "i", FALSE>>, <<"y", "i", FALSE>> >>
+                 [] r = "nsb.NoteB" -> << <<"level", "i", TRUE>> >> [] OTHER -> <<>>
+\* the arguments as a sequence of <<keyword or "", kind>>
+ArgSeq(a) == CASE a = "none" -> <<>> [] a = "pos_s" -> << <<"", "s">> >> [] a = "pos_i" -> << <<"", "i">> >>
+               [] a = "pos_ii" -> << <<"", "i">>, <<"", "i">> >> [] a = "pos_ss" -> << <<"", "s">>, <<"", "s">> >>
+               [] a = "pos_iii" -> << <<"", "i">>, <<"", "i">>, <<"", "i">> >>
+               [] a = "kw_importance" -> << <<"importance", "s">> >> [] a = "kw_xy" -> << <<"x", "i">>, <<"y", "i">> >>
+               [] a = "kw_x" -> << <<"x", "i">> >> [] a = "kw_zz" -> << <<"zz", "s">> >>
+               [] a = "mixed" -> << <<"", "i">>, <<"y", "i">> >>
+AnnDefFits(r, a) ==
+    LET args == ArgSeq(a)
+        ps == ParamsOf(r)
+        poss == SelectSeq(args, LAMBDA x : x[1] = "")
+        kws == SelectSeq(args, LAMBDA x : x[1] # "")
+    IN  IF r \in {"nsc.NoteC", "nsz.Note", "Zz", "Sx", "nsa.Note"} THEN "rej"      \* unknown, not imported, not an annotation type,
+                                                                              \* or the namespace naming itself
+        ELSE IF r \in {"Omitted", "Deprecated", "RedactedBlot"} THEN
+             \* built-in kinds: Omitted takes the caller name, Deprecated nothing, RedactedBlot an optional pattern
+             (IF r = "Omitted" /\ a = "pos_s" THEN "acc" ELSE IF r = "Deprecated" /\ a = "none" THEN "acc"
+              ELSE IF r = "RedactedBlot" /\ a \in {"none", "pos_s"} THEN "acc"
+              ELSE IF r = "Omitted" /\ a = "none" THEN "rej" ELSE "unspec")
+        ELSE IF poss # <<>> /\ kws # <<>> THEN "rej"                \* "all positional or all keyword arguments, but not a mix"
+        ELSE IF poss # <<>> THEN
+             (IF Len(poss) > Len(ps) THEN "rej"
+              ELSE IF \E i \in DOMAIN poss : poss[i][2] # ps[i][2] THEN "rej"
+              ELSE IF \E i \in (Len(poss) + 1)..Len(ps) : ~ps[i][3] THEN "rej" ELSE "acc")
+        ELSE (IF \E i \in DOMAIN kws : ~\E j \in DOMAIN ps : ps[j][1] = kws[i][1] /\ ps[j][2] = kws[i][2] THEN "rej"
+              ELSE IF \E j \in DOMAIN ps : ~ps[j][3] /\ ~\E i \in DOMAIN kws : kws[i][1] = ps[j][1] THEN "rej" ELSE "acc")
+
+\* ------------------------------------------------------------- a name that is not a type, written where a type is expected
+\* nsa imports nsb; names: nsb (a namespace), Dep (an annotation), Note (an annotation type), ra (a route), Aa (alias of String, fine),
+\* Zz (undefined); the member may or may not have an example / default
+BadTypes == {"nsb", "Dep", "Note", "ra", "Aa", "Zz", "nsb.Tb", "nsb.Fo"}
+TypeSites == {"field", "field_example", "tag", "alias", "route_arg", "list_item", "field_nullable"}
+TypeNameFits(site, n) == IF n \in {"Aa", "nsb.Tb"} THEN (IF site = "route_arg" /\ n = "Aa" THEN "unspec" ELSE "acc") ELSE "rej"
+
 \* ------------------------------------------------------------- the machine
 Init == pick = [k |-> "none"]
 PickEx == /\ Mode = "exlit" /\ pick.k = "none"
@@ -223,7 +282,11 @@ PickAnn == /\ Mode = "annot" /\ pick.k = "none"
            /\ \E st \in ASites, ty \in ATypesOf, a1 \in Anns, a2 \in Anns \cup {"none"} :
                   /\ (st = "alias" => ty \in {"String", "Int32", "ListString", "Sx", "APlain", "ARed"})
                   /\ pick' = [k |-> "annot", site |-> st, ty |-> ty, a1 |-> a1, a2 |-> a2]
-Next == PickEx \/ PickAttr \/ PickRef \/ PickAnn
+PickAnnDef == /\ Mode = "anndef" /\ pick.k = "none"
+              /\ \E r \in DefRefs, a \in DefArgs : pick' = [k |-> "anndef", r |-> r, a |-> a]
+PickBadType == /\ Mode = "badtype" /\ pick.k = "none"
+               /\ \E st \in TypeSites, n \in BadTypes : pick' = [k |-> "badtype", site |-> st, n |-> n]
+Next == PickEx \/ PickAttr \/ PickRef \/ PickAnn \/ PickAnnDef \/ PickBadType
 Spec == Init /\ [][Next]_vars
 
 \* ------------------------------------------------------------- properties
@@ -233,6 +296,8 @@ Total == CASE pick.k = "exlit"  -> ExFits(XSchema(ETypes[pick.ti]), XExamples(pi
            [] pick.k = "attr"   -> AttrFits(ASchema, ADecls[pick.di], pick.l) \in Verdicts
            [] pick.k = "docref" -> RefFits(pick.site, pick.tag, pick.p) \in Verdicts
            [] pick.k = "annot"  -> AnnFits(pick.site, pick.ty, pick.a1, pick.a2) \in Verdicts
+           [] pick.k = "anndef" -> AnnDefFits(pick.r, pick.a) \in Verdicts
+           [] pick.k = "badtype" -> TypeNameFits(pick.site, pick.n) \in Verdicts
            [] OTHER -> TRUE
 \* a default the schema itself declares is a value the rule accepts when a route writes it (the schema is consistent)
 DeclaredDefaultsFit == \A i \in DOMAIN ADecls : ADecls[i].d.k # "absent" => AttrFits(ASchema, ADecls[i], ADecls[i].d) = "acc"
@@ -260,6 +325,8 @@ Vector ==
            [mode |-> "attr", schema |-> ASchema, decl |-> ADecls[pick.di], l |-> pick.l, verdict |-> AttrFits(ASchema, ADecls[pick.di], pick.l)]
       [] pick.k = "docref" ->
            [mode |-> "docref", site |-> pick.site, tag |-> pick.tag, p |-> pick.p, verdict |-> RefFits(pick.site, pick.tag, pick.p)]
+      [] pick.k = "anndef" -> [mode |-> "anndef", r |-> pick.r, a |-> pick.a, verdict |-> AnnDefFits(pick.r, pick.a)]
+      [] pick.k = "badtype" -> [mode |-> "badtype", site |-> pick.site, n |-> pick.n, verdict |-> TypeNameFits(pick.site, pick.n)]
       [] pick.k = "annot" ->
            [mode |-> "annot", site |-> pick.site, ty |-> pick.ty, a1 |-> pick.a1, a2 |-> pick.a2,
             verdict |-> AnnFits(pick.site, pick.ty, pick.a1, pick.a2)]
